@@ -6,11 +6,9 @@ import (
 	"fmt"
 	"io"
 	"net/http"
-	"strings"
 	"time"
 
 	"github.com/gobwas/ws"
-	"google.golang.org/genproto/googleapis/rpc/code"
 	"google.golang.org/grpc"
 	"google.golang.org/grpc/codes"
 	"google.golang.org/grpc/metadata"
@@ -297,10 +295,8 @@ func (m *Mux) encError(w http.ResponseWriter, r *http.Request, err error) {
 		w.Header().Set("Content-Type", accept)
 		w.WriteHeader(HTTPStatusCode(s.Code()))
 
-		codeStr := strings.ToLower(code.Code_name[int32(s.Code())])
-
 		terr := &twirpError{
-			Code:    codeStr,
+			Code:    twirpCode(s.Code()),
 			Message: s.Message(),
 		}
 		b, err := json.Marshal(terr)
